@@ -146,6 +146,23 @@ func wrapConsts(repo string, add func(string, int64, string)) error {
 		return true
 	})
 	add("cache_openfile_clears_excl", b2i(clr), "cacheOnReadFs.go OpenFile: 1 iff O_EXCL is cleared from the flags after copyFileToLayer")
+	// CacheOnReadFs.OpenFile, miss/stale branch: is a DIRECTORY of the base made in the layer (base.Stat,
+	// IsDir, layer.MkdirAll) instead of being sent through copyFileToLayer?  Exactly two shapes are known:
+	// all three calls present (1) or none of them (0); anything else is an error.
+	{
+		hasStat, hasIsDir, hasMk := hasMethodCall(fd, "Stat"), hasMethodCall(fd, "IsDir"), hasMethodCall(fd, "MkdirAll")
+		if !hasMethodCall(fd, "copyFileToLayer") {
+			return fmt.Errorf("cacheOnReadFs.go: CacheOnReadFs.OpenFile no longer calls copyFileToLayer: unknown shape")
+		}
+		switch {
+		case hasStat && hasIsDir && hasMk:
+			add("cache_openfile_dir_mkdir", 1, "cacheOnReadFs.go OpenFile: 1 iff on a miss/stale name a base directory is created in the layer with MkdirAll instead of copied like a file")
+		case !hasStat && !hasIsDir && !hasMk:
+			add("cache_openfile_dir_mkdir", 0, "cacheOnReadFs.go OpenFile: 1 iff on a miss/stale name a base directory is created in the layer with MkdirAll instead of copied like a file")
+		default:
+			return fmt.Errorf("cacheOnReadFs.go: CacheOnReadFs.OpenFile: unknown shape of the directory branch (Stat=%v IsDir=%v MkdirAll=%v)", hasStat, hasIsDir, hasMk)
+		}
+	}
 
 	uf, err := parseSrc(repo, "unionFile.go")
 	if err != nil {
